@@ -319,6 +319,7 @@ class Chipset(object):
         if len(data) < len(args):
             self.log.error("insufficient number of register values")
             raise IOError(errno.EIO, os.strerror(errno.EIO))
+        data = data[0:len(args)]  # one value per register, ignore surplus
         return list(data) if len(data) > 1 else data[0]
 
     def _read_register(self, data):
